@@ -3,6 +3,7 @@
 from __future__ import annotations
 
 from asyncio import (
+    CancelledError,
     Event,
     Future,
     Queue,
@@ -76,6 +77,7 @@ class StreamItemQueue:
         self._producer_cancelled = False
         self._pending_futures: set[Future[WorkResult]] = set()
         self._aborted = False
+        self._failed = False
         self._finished = False
         self._stopped = False
         if eager:
@@ -101,7 +103,7 @@ class StreamItemQueue:
         except Exception as error:
             # settle the pending item futures and clean up the source
             # before delivering the failure
-            self._aborted = True
+            self._aborted = self._failed = True
             await self._settle_pending()
             on_abort = self._on_abort
             if on_abort is not None:
@@ -143,6 +145,19 @@ class StreamItemQueue:
             if isfuture(entry):
                 try:
                     entry = await entry
+                except CancelledError:
+                    if not (self._failed and entry.cancelled()):
+                        raise  # the consumer or the whole stream was cancelled
+                    # The pending item has been cancelled because the source
+                    # failed; nothing after it can be delivered any more,
+                    # so wait for the failure entry.
+                    while True:
+                        entry = await entries.get()
+                        if isinstance(entry, _ErrorEntry):
+                            raise entry.error from None
+                        if entry is _END:  # pragma: no cover
+                            self._stopped = True
+                            return
                 except Exception:
                     await self._cleanup()
                     raise
